@@ -323,13 +323,35 @@ Qed.
 Lemma len_rev (l:bytes) : len (rev l) = len l.
 Proof. unfold len. rewrite rev_length. reflexivity. Qed.
 
+(* the repaired skip_trailing_characteres (D8): the scan over the reversed characters *)
+Lemma skip_trail_rev_eq cps : av_skip_trail cps = av_skip_trail_rev 0 (rev cps).
+Proof. unfold av_skip_trail. rewrite rev_append_rev, app_nil_r. reflexivity. Qed.
+Lemma skip_trail_rev_prefix : forall l idx p, av_skip_trail_rev idx l = Some p ->
+  exists pre post, l = pre ++ post /\ idx <= p /\ len pre = p - idx /\ Forall (fun c => c < 0x80) pre.
+Proof.
+  induction l as [|c l IH]; intros idx p H; [discriminate|].
+  cbn [av_skip_trail_rev] in H. destruct (av_removable c) eqn:R; cbn [negb orb] in H.
+  - destruct (av_bs_odd l).
+    + injection H as <-. exists [], (c :: l). rewrite len_nil. repeat split; try lia. constructor.
+    + destruct (IH _ _ H) as (pre & post & -> & I1 & I2 & I3).
+      exists (c :: pre), post. rewrite len_cons. repeat split; try lia.
+      constructor; [apply removable_ascii; exact R|exact I3].
+  - injection H as <-. exists [], (c :: l). rewrite len_nil. repeat split; try lia. constructor.
+Qed.
+(* a text whose last character is not removable, or is escaped, is left alone *)
+Lemma skip_trail_stop cps : av_trail_stop (rev cps) = true -> av_skip_trail cps = Some 0.
+Proof.
+  rewrite skip_trail_rev_eq. destruct (rev cps) as [|c r]; [discriminate|].
+  cbn [av_trail_stop av_skip_trail_rev]. intros ->. reflexivity.
+Qed.
+
 (* strings.rs skip_trailing_characteres: `s.len() - pos` does not underflow and is a character boundary *)
 Lemma skip_trail_bytes s cps p :
   av_utf8 s = Some cps -> av_skip_trail cps = Some p ->
   p <= len s /\ av_is_boundary s (len s - p) = true.
 Proof.
-  intros Hu Hs. unfold av_skip_trail in Hs.
-  destruct (skip_start_prefix _ _ _ Hs) as (pre & post & E & _ & Hl & Hf).
+  intros Hu Hs. rewrite skip_trail_rev_eq in Hs.
+  destruct (skip_trail_rev_prefix _ _ _ Hs) as (pre & post & E & _ & Hl & Hf).
   assert (Ec : cps = rev post ++ rev pre).
   { rewrite <- rev_app_distr, <- E, rev_involutive. reflexivity. }
   rewrite Ec in Hu. destruct (utf8_suffix _ _ _ Hu) as (a & b & -> & Hb).
@@ -1025,12 +1047,10 @@ Proof.
   intros H. apply andb_prop in H as [Hq Ht]. unfold av_formatted. rewrite Hq. cbn [negb andb].
   destruct cps as [|c cs].
   - apply utf8_nil in Eu. subst s. reflexivity.
-  - cbn [av_trimmed] in Ht. apply andb_prop in Ht as [T1 T2]. apply negb_true_iff in T1, T2.
+  - cbn [av_trimmed] in Ht. apply andb_prop in Ht as [T1 T2]. apply negb_true_iff in T1.
     cbn [av_skip_start]. rewrite T1. unfold av_str_from. cbn [av_is_boundary N.eqb]. 
     change (av_is_boundary s 0) with true. cbn [av_bind]. rewrite drop_0.
-    rewrite (av_chars_some _ _ Eu). unfold av_skip_trail.
-    destruct (rev_last_head (c :: cs)) as (t & ->); [discriminate|].
-    cbn [av_skip_start]. rewrite T2.
+    rewrite (av_chars_some _ _ Eu). rewrite (skip_trail_stop _ T2).
     destruct (N.ltb_spec (len s) 0); [lia|].
     unfold av_str_to. rewrite N.sub_0_r, boundary_end, take_all. cbn [av_bind].
     rewrite av_bytes_eqb_refl. reflexivity.
